@@ -273,35 +273,60 @@ theorem emitIndex_length (off : Nat) (cache : Bool) (acc : Nat) (cells : List By
 
 /-! ### back-patching and roots on a valid table -/
 
-theorem checkRefs_ok (i n : Nat) (refs : List Nat) (h : ∀ x ∈ refs, i < x ∧ x < n) :
-    checkRefs i n (refs.map Int.ofNat) = .ok () := by
-  induction refs with
-  | nil => rfl
+theorem checkRefs_ok (depths : Array Nat) (i n bound : Nat) (refs : List Nat) (d : Nat) (hsz : depths.size = n)
+    (h : ∀ x ∈ refs, i < x ∧ x < n ∧ depths[x]! + 1 ≤ bound) (hd : d ≤ bound) :
+    ∃ d', checkRefs depths i n (refs.map Int.ofNat) d = .ok d' ∧ d' ≤ bound := by
+  induction refs generalizing d with
+  | nil => exact ⟨d, rfl, hd⟩
   | cons x xs ih =>
-    have hx := h x (by simp)
+    obtain ⟨hx1, hx2, hx3⟩ := h x (by simp)
     simp only [List.map_cons, checkRefs]
     have h1 : ¬ (Int.ofNat x ≤ (i : Int)) := by simp only [Int.ofNat_eq_natCast]; omega
     have h2 : ¬ (Int.ofNat x ≥ (n : Int)) := by simp only [Int.ofNat_eq_natCast]; omega
     simp only [h1, h2, if_false]
-    exact ih (fun y hy => h y (by simp [hy]))
+    have hxd : x < depths.size := by omega
+    have hto : (Int.ofNat x).toNat = x := by simp
+    rw [hto, Array.getElem?_eq_getElem hxd]
+    simp only
+    rw [getElem!_pos depths x hxd] at hx3
+    apply ih _ (fun y hy => h y (by simp [hy]))
+    split <;> omega
 
-theorem backPatch_ok (t : Table) (hrows : ∀ i (h : i < t.size), RowOK t.size i t[i]) (k : Nat) (hk : k ≤ t.size) :
-    backPatch (t.toList.map rawOf).toArray k = .ok () := by
-  induction k with
-  | zero => rfl
+theorem backPatch_ok (t : Table) (hrows : ∀ i (h : i < t.size), RowOK t.size i t[i]) (ds0 : Array Nat)
+    (hds : ds0.size = t.size)
+    (hrank : ∀ i (h : i < t.size), ds0[i]! ≤ maxDepth ∧ ∀ r ∈ t[i].refs, ds0[r]! + 1 ≤ ds0[i]!)
+    (k : Nat) (hk : k ≤ t.size) (depths : Array Nat) (hsz : depths.size = t.size)
+    (hinv : ∀ i, k ≤ i → i < t.size → depths[i]! ≤ ds0[i]!) :
+    ∃ ds, backPatch (t.toList.map rawOf).toArray k depths = .ok ds := by
+  induction k generalizing depths with
+  | zero => exact ⟨depths, rfl⟩
   | succ k ih =>
     have hk' : k < t.size := by omega
     have hrow := hrows k hk'
+    obtain ⟨hdk, hrk⟩ := hrank k hk'
     unfold backPatch
     have hget : (t.toList.map rawOf).toArray[k]? = some (rawOf t[k]) := by simp [hk']
     rw [hget]
     have h4 : ¬ ((rawOf t[k]).refs.length > 4) := by simp [rawOf]; exact hrow.refs_le
     simp only [h4, if_false]
-    have hsz : (t.toList.map rawOf).toArray.size = t.size := by simp
-    rw [hsz]
-    have := checkRefs_ok k t.size t[k].refs hrow.refs_fwd
-    simp only [rawOf, this, bind, Outcome.bind]
-    exact ih (by omega)
+    have hsz' : (t.toList.map rawOf).toArray.size = t.size := by simp
+    rw [hsz']
+    obtain ⟨d, hd, hdb⟩ := checkRefs_ok depths k t.size (ds0[k]!) t[k].refs 0 hsz (by
+      intro x hx
+      obtain ⟨hx1, hx2⟩ := hrow.refs_fwd x hx
+      have := hinv x (by omega) hx2
+      have := hrk x hx
+      exact ⟨hx1, hx2, by omega⟩) (by omega)
+    have hkd : k < depths.size := by omega
+    have hnd : ¬ d > maxDepth := by omega
+    simp only [rawOf, hd, bind, Outcome.bind, hkd, if_true, hnd, if_false]
+    apply ih (by omega) (depths.set! k d) (by simp [hsz])
+    intro i hki hi
+    by_cases hik : i = k
+    · subst hik
+      rw [getElem!_set!_eq depths i d hkd]; exact hdb
+    · rw [getElem!_set!_ne depths k i d (by omega) (by omega)]
+      exact hinv i (by omega) hi
 
 theorem checkRoots_ok (n : Nat) (roots : List Nat) (h : ∀ r ∈ roots, r < n) : checkRoots n roots = .ok () := by
   induction roots with
@@ -694,7 +719,7 @@ theorem parseHeader_emit (p : EmitParams) (t : Table) (roots : List Nat)
     · simp only [hm, decide_true, if_true]
       apply parseRoots_emit_list p.size roots _ hs4 hrl
       intro x hx
-      have := hv.1.2 x hx
+      have := hv.1.2.1 x hx
       omega
     · have hr0 := hp.idx_root hm
       simp only [hm, decide_false, if_false, List.nil_append, hr0, List.length_cons, List.length_nil]
@@ -742,13 +767,17 @@ theorem parseBocM_emit (p : EmitParams) (t : Table) (roots : List Nat)
   apply ret_bind hcells
   dsimp only
   rw [start_u32 _ hn32]
-  apply ret_bind (ret_lift (backPatch_ok t hv.1.1 t.size (Nat.le_refl _)))
+  apply ret_bind (ret_makeSlice _ _ (by simp only [szUint, List.size_toArray, List.length_map, Array.length_toList]; omega))
+  obtain ⟨ds0, hds0, hrank⟩ := hv.1.2.2
+  obtain ⟨ds, hbp⟩ := backPatch_ok t hv.1.1 ds0 hds0 hrank t.size (Nat.le_refl _)
+    (Array.replicate (t.toList.map rawOf).toArray.size 0) (by simp) (by intro i hki hi; omega)
+  apply ret_bind (ret_lift hbp)
   apply ret_bind (ret_makeSlice _ _ (by unfold szPtr; omega))
   apply ret_bind (a := ())
   · apply ret_lift
     apply checkRoots_ok
     intro r hr
-    have := hv.1.2 r hr
+    have := hv.1.2.1 r hr
     simpa using this
   rw [map_toRow_rawOf]
   exact ret_pure _
